@@ -84,7 +84,7 @@ class Kernel:
                         for i_, a_ in enumerate(actual[3]):
                             ps[2 + i_] = T(a_)
                     outer, ups = f[3], f[2]
-                    ret, updates = closure_terms(self.prog, cb, ps, upvar_leaf=lambda u: outer.term(ups[u[1]]))
+                    ret, updates = closure_terms(self.prog, cb, ps, upvar_leaf=lambda u: outer.term(ups[u[1]]), kernel_cls=type(self))
                     if updates or ret is None:
                         raise Unrecognised("closure argument with side effects")
                     return ret
@@ -100,7 +100,7 @@ class Kernel:
                         ps[i_ + 1] = ("closureval", a2[2], a2[3], self)
                     else:
                         ps[i_ + 1] = T(a_)
-                ret, updates = closure_terms(self.prog, hb, ps)
+                ret, updates = closure_terms(self.prog, hb, ps, kernel_cls=type(self))
                 if updates or ret is None:
                     raise Unrecognised("helper `%s` is not a pure value" % nm)
                 return ret
@@ -133,6 +133,12 @@ class Kernel:
                 return T(args[0])
             if nm in ("log10",) and len(args) == 1:
                 return ("fn", "log10", T(args[0]))
+            if hb is not None and not hb.is_closure and hb.key not in self.prog.exported and depth < 40:
+                # any other private helper of the crate: its value as a decision tree over its own branches
+                ps = {i_ + 1: T(a_) for i_, a_ in enumerate(args)}
+                ret, updates = closure_terms(self.prog, hb, ps, kernel_cls=type(self))
+                if not updates and ret is not None:
+                    return ret
             raise Unrecognised("operator `%s` (%s)" % (nm, e[2]))
         if op == "binop":
             o = e[1]
@@ -185,7 +191,7 @@ class TypedKernel(Kernel):
         return Kernel.term(self, e, depth)
 
 
-def closure_function(prog, cbody, param_syms, upvar_leaf=None):
+def closure_function(prog, cbody, param_syms, upvar_leaf=None, kernel_cls=None):
     """(return term, {upvar index: updated-value term}) of a loop-free closure body, as nested ite over its branches.
     param_syms: {param local: T-term or callable(expr)->T}.  Mutations of captured `&mut` accumulators are returned
     as updates (at most one per path)."""
@@ -211,7 +217,7 @@ def closure_function(prog, cbody, param_syms, upvar_leaf=None):
             return ("sym", "^%s" % (e[2] or e[1]))
         return None
 
-    K = Kernel(prog, tb, leaf)
+    K = (kernel_cls or Kernel)(prog, tb, leaf)
     try:
         paths = enumerate_paths(tb)
     except NotLoopFree as ex:
@@ -305,9 +311,9 @@ def blocks_of_path(tb, decisions):
     return set(seen)
 
 
-def closure_terms(prog, cbody, param_syms, upvar_leaf=None):
+def closure_terms(prog, cbody, param_syms, upvar_leaf=None, kernel_cls=None):
     """→ (return_term or None, {upvar idx: update term as ite-tree (identity = ('keep',))})"""
-    K, tb, paths, results, upd_sites = closure_function(prog, cbody, param_syms, upvar_leaf)
+    K, tb, paths, results, upd_sites = closure_function(prog, cbody, param_syms, upvar_leaf, kernel_cls=kernel_cls)
     ret = None
     if results and all(r is not None for _, r in results):
         ret = decision_tree(K, tb, [(d, r) for d, r in results])
